@@ -12,6 +12,9 @@
    Batch object, not dropped on give-up) must violate BodyIs.
    Routing family: explicit routing values per event (none / a / b) over successive batches; the kafka per-worker record
    slots are modelled; spec mutant M_TopicPerEvent (topic set only on slot allocation / when different) must violate RoutingOwn.
+   File sink under concurrency: specs/OutputFileSink.tla (two/three workers, seal-up swapping the file): every file is a
+   concatenation of whole batch payloads, every chunk in exactly one file; mutant M_BatchWrittenUnderOneLock (chunked write,
+   lock released per chunk) rejected with two workers and with a seal-up; replayed on the real file plugin (barrier + sealUp).
 2. The cases are replayed into the REAL output plugins (elasticsearch, kafka, file, splunk, http, loki, gelf), each
    event carrying adversarial values in the routing/label fields; every captured body is parsed back in the sink's
    framing (abstraction function) and compared with the expectation: BodyIs, FramingOK, SplitCovers.
@@ -189,6 +192,39 @@ def preload_findings():
     vlib._FINDINGS = out
 
 
+def file_sink_concurrency(ctx, binary, recs):
+    """specs/OutputFileSink.tla on the real file output: two workers flush payloads > 64 KiB / > 128 KiB together (barrier)
+    while the harness calls sealUp; all files are read back. Overlap is constructed, not guaranteed: what was achieved is
+    measured by the harness and reported."""
+    rounds = 30 if ctx.tier == "quick" else 300
+    info = {}
+    for label, env in (("default", {}), ("GOMAXPROCS=1", {"GOMAXPROCS": "1"})):
+        outp = os.path.join(ctx.scratch, "c19_fileconc_%s.json" % label.replace("=", ""))
+        e = {"VERIF_OUT": outp, "VERIF_ROUNDS": rounds, "LOG_LEVEL": "error"}
+        e.update(env)
+        rc, txt = ctx.run_bin(binary, "^TestVerifC19FileConc$", env=e, timeout=1200)
+        if rc != 0 or not os.path.exists(outp):
+            if "panic:" in txt and "plugin/output/file" in txt and "zz_verif" not in txt.split("panic:", 1)[1][:1500]:
+                recs.append({"kind": "panic", "sink": "file", "stage": "file_sink_concurrency", "panic": txt[txt.index("panic:"):][:600]})
+                continue
+            raise vlib.Infra("C19 file-sink concurrency harness failed rc=%s:\n%s" % (rc, txt[-3000:]))
+        r = json.load(open(outp))
+        info[label] = {k: r[k] for k in ("rounds", "batches", "events", "files", "overlapping_out_pairs", "seal_ups",
+                                         "seal_ups_while_out_in_flight", "n_violations")}
+        for v in r["violations"] or []:
+            recs.append(dict(v, sink="file", stage="file_sink_concurrency", schedule=label, violations_in_run=r["n_violations"]))
+        ctx.evaluations += r["batches"]
+        ctx.traces_validated += r["rounds"]
+        if r["overlapping_out_pairs"] or r["seal_ups_while_out_in_flight"]:
+            ctx.nontrivial.add(("file_sink_concurrency", label, "overlap"))
+        vlib.log("C19 file sink concurrency (%s): rounds=%d batches=%d files=%d overlapping out() pairs=%d seal-ups=%d of them "
+                 "while an out() was in flight=%d violations=%d" % (label, r["rounds"], r["batches"], r["files"],
+                 r["overlapping_out_pairs"], r["seal_ups"], r["seal_ups_while_out_in_flight"], r["n_violations"]))
+    ctx.extra["file_sink_concurrency"] = info
+    ctx.assumptions.append("file sink concurrency: out() of two workers released together plus sealUp called by the harness; the "
+                           "overlap actually achieved is measured (evidence: file_sink_concurrency) - with GOMAXPROCS=1 it is usually none")
+
+
 def run(ctx):
     quick = ctx.tier == "quick"
     preload_findings()
@@ -227,6 +263,18 @@ def run(ctx):
             if m.ok or m.kind != "invariant":
                 raise vlib.Infra("spec mutant %s=FALSE is not detected by the invariants (ok=%s, %s)" % (sw, m.ok, m.violated))
             mutants[sw] = m.violated
+        # the file sink under concurrency (two workers, seal-up): holds as coded, and the chunked write with the lock
+        # released per chunk is rejected both with two workers and with a seal-up
+        r = bg.tlc("OutputFileSink", "OutputFileSink_quick.cfg" if quick else "OutputFileSink_thorough.cfg", deadlock=False,
+                   timeout=900, workers=4, name="OutputFileSink: one append per batch under the lock")
+        if not r.ok:
+            raise vlib.Infra("OutputFileSink should hold: %s\n%s" % (r.violated, r.out[-2000:]))
+        for cfg in ("OutputFileSink_mut_workers.cfg", "OutputFileSink_mut_seal.cfg"):
+            m = bg.tlc("OutputFileSink", cfg, deadlock=False, timeout=600, workers=2,
+                       overrides={"M_BatchWrittenUnderOneLock": "FALSE"}, name="mutant M_BatchWrittenUnderOneLock off (%s)" % cfg)
+            if m.ok or m.kind != "invariant":
+                raise vlib.Infra("spec mutant M_BatchWrittenUnderOneLock=FALSE (%s) is not rejected" % cfg)
+            mutants["M_BatchWrittenUnderOneLock/" + cfg[len("OutputFileSink_mut_"):-4]] = m.violated
         return mutants
     side_f = pool.submit(side_runs)
 
@@ -378,6 +426,8 @@ def run(ctx):
         "gzip off; byte-level escaping is checked only through 'parses back to the same JSON document'",
         "clickhouse / postgres / s3 / socket / stdout outputs are not covered",
     ]
+    if "file" in bins:
+        file_sink_concurrency(ctx, bins["file"], recs)
     ctx.classify(recs)
     import c19_pipeline
     c19_pipeline.stage(ctx)      # pipeline side: Batch.ForEach yields exactly the deliverable events (recycled event objects, split)
